@@ -1,6 +1,9 @@
-//! C03 obligations: optional-parameter defaults are chained after the supplied
-//! arguments (ExactSizeChain + SimpleFunctionDefinition::compile), and
-//! check_param applies arity index / kind / type rules.
+//! C03 obligations: the implementation of a simple function is invoked with
+//! exactly the supplied arguments followed by the declared defaults of the OMITTED
+//! (trailing) optional parameters, a typed absence is passed through
+//! (`ExactSizeChain` + `SimpleFunctionDefinition::compile`); `check_param`
+//! applies the declared kind rules; the per-call context object is reachable
+//! through every accessor of `FunctionDefinitionContext`.
 use super::super::*;
 use crate::types::{LhsValue, RhsValue, Type};
 
@@ -17,7 +20,9 @@ fn chain<const A: usize, const B: usize>() {
         assert!(it.next() == Some(want), "first iterator's items, then the second's, in order");
         k += 1;
     }
-    assert!(it.len() == 0 && it.next().is_none());
+    assert!(it.len() == 0, "nothing remains");
+    assert!(it.next().is_none(), "nothing beyond the items");
+    kani::cover!(true);
 }
 
 #[kani::proof]
@@ -38,57 +43,111 @@ fn exact_size_chain__order_and_len_2_0() {
     chain::<2, 0>()
 }
 
-/// Implementation that reports its arguments: packs (count, a0, a1, a2) of the
-/// Int arguments it receives (an absent argument counts as -1).
-fn report<'a>(args: FunctionArgs<'_, 'a>) -> Option<LhsValue<'a>> {
-    let n = args.len() as i64;
-    let mut acc: i64 = n;
-    let mut k = 0;
-    while k < 3 {
-        let v = match args.next() {
-            Some(Ok(LhsValue::Int(i))) => i,
-            Some(_) => -1,
-            None => -2,
-        };
-        acc = acc * 10 + v;
-        k += 1;
-    }
-    Some(LhsValue::Int(acc))
+#[kani::proof]
+#[kani::unwind(5)]
+fn exact_size_chain__order_and_len_1_2() {
+    chain::<1, 2>()
 }
 
-fn definition() -> SimpleFunctionDefinition {
+// What the harness implementation observed (plain values only - trap 3).
+static mut SEEN_LEN: usize = 0;
+static mut SEEN_N: usize = 0;
+static mut SEEN_VAL: [i64; 4] = [0; 4];
+/// 0 = present Int, 1 = typed absence Err(Type::Int), 2 = anything else
+static mut SEEN_KIND: [u8; 4] = [9; 4];
+
+/// Implementation that records its arguments.
+fn report<'a>(args: FunctionArgs<'_, 'a>) -> Option<LhsValue<'a>> {
+    unsafe {
+        SEEN_LEN = args.len();
+        let mut k = 0;
+        while k < 4 {
+            match args.next() {
+                Some(Ok(LhsValue::Int(i))) => {
+                    SEEN_VAL[k] = i;
+                    SEEN_KIND[k] = 0;
+                }
+                Some(Err(Type::Int)) => {
+                    SEEN_KIND[k] = 1;
+                }
+                Some(other) => {
+                    std::mem::forget(other);
+                    SEEN_KIND[k] = 2;
+                }
+                None => {
+                    break;
+                }
+            }
+            k += 1;
+        }
+        SEEN_N = k;
+    }
+    Some(LhsValue::Int(1))
+}
+
+const DEFAULT_1: i64 = 7;
+const DEFAULT_2: i64 = 8;
+
+fn definition(with_optionals: bool) -> SimpleFunctionDefinition {
+    let mut params = Vec::with_capacity(1);
+    params.push(SimpleFunctionParam { arg_kind: SimpleFunctionArgKind::Field, val_type: Type::Int });
+    let mut opt_params = Vec::with_capacity(2);
+    if with_optionals {
+        opt_params.push(SimpleFunctionOptParam {
+            arg_kind: SimpleFunctionArgKind::Literal,
+            default_value: LhsValue::Int(DEFAULT_1),
+        });
+        opt_params.push(SimpleFunctionOptParam {
+            arg_kind: SimpleFunctionArgKind::Both,
+            default_value: LhsValue::Int(DEFAULT_2),
+        });
+    }
     SimpleFunctionDefinition {
-        params: vec![SimpleFunctionParam { arg_kind: SimpleFunctionArgKind::Field, val_type: Type::Int }],
-        opt_params: vec![
-            SimpleFunctionOptParam { arg_kind: SimpleFunctionArgKind::Literal, default_value: LhsValue::Int(7) },
-            SimpleFunctionOptParam { arg_kind: SimpleFunctionArgKind::Both, default_value: LhsValue::Int(8) },
-        ],
+        params,
+        opt_params,
         return_type: Type::Int,
         implementation: SimpleFunctionImpl::new(report),
     }
 }
 
-/// K2: with 1 mandatory + 2 optional parameters, calling the compiled function
-/// with P supplied arguments delivers exactly supplied ++ defaults[P-1..], in
-/// order, and the internal arity assertion never fires.
-fn defaults<const P: usize>() {
-    let def = definition();
-    assert!(def.arg_count() == (1, Some(2)));
+/// K2: 1 mandatory + 2 optional parameters (defaults 7 and 8). Calling the
+/// compiled function with P supplied arguments (each present or a typed absence)
+/// delivers exactly supplied ++ defaults[P-1..] in order; the arity assertion of
+/// the compiled closure never fires.
+fn defaults<const P: usize, const OPT: bool>() {
+    let def = definition(OPT);
+    assert!(def.arg_count() == (1, Some(if OPT { 2 } else { 0 })));
     let ptypes = [Type::Int; P];
     let f = def.compile(&mut ptypes.iter().map(|t| FunctionParam::Variable(*t)), None);
     let xs: [i64; P] = kani::any();
-    let mut i = 0;
-    while i < P {
-        kani::assume(xs[i] >= 0 && xs[i] <= 6);
-        i += 1;
-    }
-    let mut supplied = xs.iter().map(|x| Ok(LhsValue::Int(*x)));
+    let absent: [bool; P] = kani::any();
+    let supplied: [CompiledValueResult<'static>; P] =
+        std::array::from_fn(|i| if absent[i] { Err(Type::Int) } else { Ok(LhsValue::Int(xs[i])) });
+    let mut supplied = supplied.into_iter();
     let got = f(&mut supplied);
-    let a0 = xs[0];
-    let a1 = if P > 1 { xs[1] } else { 7 };
-    let a2 = if P > 2 { xs[2] } else { 8 };
-    let want = ((3 * 10 + a0) * 10 + a1) * 10 + a2;
-    assert!(matches!(got, Some(LhsValue::Int(v)) if v == want), "omitted optional parameters are replaced by their declared defaults, in order");
+    assert!(matches!(got, Some(LhsValue::Int(1))), "the implementation's result is the call's result");
+    let total = if OPT { 3 } else { 1 };
+    unsafe {
+        assert!(SEEN_LEN == total, "the implementation sees mandatory + optional parameters");
+        assert!(SEEN_N == total, "exactly that many arguments are delivered");
+        let mut k = 0;
+        while k < P {
+            if absent[k] {
+                assert!(SEEN_KIND[k] == 1, "an argument without a value is passed as a typed absence");
+            } else {
+                assert!(SEEN_KIND[k] == 0 && SEEN_VAL[k] == xs[k], "supplied arguments in source order");
+            }
+            k += 1;
+        }
+        if OPT && P < 2 {
+            assert!(SEEN_KIND[1] == 0 && SEEN_VAL[1] == DEFAULT_1, "omitted optional parameter 1 gets its declared default");
+        }
+        if OPT && P < 3 {
+            assert!(SEEN_KIND[2] == 0 && SEEN_VAL[2] == DEFAULT_2, "omitted optional parameter 2 gets its declared default");
+        }
+    }
+    kani::cover!(absent[0], "first argument is a typed absence");
+    kani::cover!(!absent[0]);
     std::mem::forget(f);
     std::mem::forget(def);
 }
@@ -96,62 +155,153 @@ fn defaults<const P: usize>() {
 #[kani::proof]
 #[kani::unwind(6)]
 fn simple_function_compile__defaults_p1() {
-    defaults::<1>()
+    defaults::<1, true>()
 }
 
 #[kani::proof]
 #[kani::unwind(6)]
 fn simple_function_compile__defaults_p2() {
-    defaults::<2>()
+    defaults::<2, true>()
 }
 
 #[kani::proof]
 #[kani::unwind(6)]
 fn simple_function_compile__defaults_p3() {
-    defaults::<3>()
+    defaults::<3, true>()
 }
 
-/// K3: check_param - kind (Literal / Field / Both) and type rules for the
-/// parameter at the position given by the number of already-checked params.
 #[kani::proof]
 #[kani::unwind(6)]
-fn simple_function_check_param__kind_and_type_rules() {
-    let def = definition();
+fn simple_function_compile__no_optionals_p1() {
+    defaults::<1, false>()
+}
+
+/// K3: check_param on a WELL-TYPED argument at position `POS` (given by the number
+/// of already-checked params): accepted iff its kind (literal / field) is allowed by
+/// the declaration (pos 0: Field, 1: Literal, 2: Both); a refusal is a KindMismatch.
+fn check_param_kind<const POS: usize>() {
+    let def = definition(true);
     let settings = ParserSettings::default();
-    let pos: usize = kani::any();
-    kani::assume(pos < 3);
-    let lit = RhsValue::Int(1);
+    let lit = RhsValue::Int(kani::any());
     let is_literal: bool = kani::any();
-    let wrong_type: bool = kani::any();
-    let blit = RhsValue::Bool(true);
-    let next = if is_literal {
-        FunctionParam::Constant(if wrong_type { &blit } else { &lit })
-    } else {
-        FunctionParam::Variable(if wrong_type { Type::Bool } else { Type::Int })
-    };
-    let prev = [Type::Int; 3];
-    let r = def.check_param(&settings, &mut prev[..pos].iter().map(|t| FunctionParam::Variable(*t)), &next, None);
-    let kind_ok = match pos {
-        0 => !is_literal, // Field
-        1 => is_literal,  // Literal
-        _ => true,        // Both
+    let next = if is_literal { FunctionParam::Constant(&lit) } else { FunctionParam::Variable(Type::Int) };
+    let prev = [Type::Int; POS];
+    let r = def.check_param(&settings, &mut prev.iter().map(|t| FunctionParam::Variable(*t)), &next, None);
+    let kind_ok = match POS {
+        0 => !is_literal,
+        1 => is_literal,
+        _ => true,
     };
     match r {
         Ok(()) => {
-            assert!(kind_ok && !wrong_type, "argument kind and type must match the declaration");
+            assert!(kind_ok, "an argument of the wrong kind is refused");
         }
         Err(FunctionParamError::KindMismatch(e)) => {
-            assert!(!kind_ok, "kind mismatch only when the kind is wrong");
-            std::mem::forget(e);
-        }
-        Err(FunctionParamError::TypeMismatch(e)) => {
-            assert!(kind_ok && wrong_type, "type mismatch only when the type is wrong");
-            std::mem::forget(e);
+            assert!(!kind_ok, "an argument of the declared kind and type is accepted");
+            let want = if is_literal { FunctionArgKind::Field } else { FunctionArgKind::Literal };
+            assert!(e.expected == want && e.actual != want);
         }
         Err(e) => {
             std::mem::forget(e);
-            assert!(false);
+            assert!(false, "a well-typed argument is never a type error");
         }
     }
+    kani::cover!(kind_ok && is_literal);
+    kani::cover!(kind_ok && !is_literal);
     std::mem::forget(def);
+    std::mem::forget(lit);
+}
+
+#[kani::proof]
+#[kani::unwind(6)]
+fn simple_function_check_param__kind_rules_pos0() {
+    check_param_kind::<0>()
+}
+
+#[kani::proof]
+#[kani::unwind(6)]
+fn simple_function_check_param__kind_rules_pos1() {
+    check_param_kind::<1>()
+}
+
+#[kani::proof]
+#[kani::unwind(6)]
+fn simple_function_check_param__kind_rules_pos2() {
+    check_param_kind::<2>()
+}
+
+/// The per-call context object: `as_any_ref`, `as_any_mut`, `downcast_ref`,
+/// `downcast_mut`, `clone`, `into_any` and `downcast` all reach the SAME stored object.
+#[kani::proof]
+#[kani::unwind(3)]
+fn definition_context__every_accessor_reaches_the_object() {
+    let v: u8 = kani::any();
+    let w: u8 = kani::any();
+    let mut ctx = FunctionDefinitionContext::new(v);
+    assert!(ctx.as_any_ref().downcast_ref::<u8>() == Some(&v), "as_any_ref reaches the object");
+    assert!(ctx.downcast_ref::<u8>() == Some(&v), "downcast_ref reaches the object");
+    assert!(ctx.downcast_ref::<u16>().is_none(), "no other type");
+    match ctx.downcast_mut::<u8>() {
+        Some(x) => {
+            *x = w;
+        }
+        None => {
+            assert!(false, "downcast_mut reaches the object");
+        }
+    }
+    assert!(ctx.downcast_ref::<u8>() == Some(&w), "a write through downcast_mut is the same object's");
+    match ctx.as_any_mut().downcast_mut::<u8>() {
+        Some(x) => {
+            assert!(*x == w, "as_any_mut reaches the stored object");
+            *x = w ^ 1;
+        }
+        None => {
+            assert!(false, "as_any_mut reaches the stored object");
+        }
+    }
+    let w = w ^ 1;
+    assert!(ctx.as_any_ref().downcast_ref::<u8>() == Some(&w), "a write through as_any_mut is seen through as_any_ref");
+    let copy = ctx.clone();
+    assert!(copy.downcast_ref::<u8>() == Some(&w), "clone carries the object");
+    match copy.into_any().downcast::<u8>() {
+        Ok(b) => {
+            assert!(*b == w, "into_any gives the object");
+        }
+        Err(e) => {
+            std::mem::forget(e);
+            assert!(false, "into_any gives the object");
+        }
+    }
+    match ctx.downcast::<u8>() {
+        Ok(b) => {
+            assert!(*b == w, "downcast gives the object");
+        }
+        Err(e) => {
+            std::mem::forget(e);
+            assert!(false, "downcast gives the object");
+        }
+    }
+    kani::cover!(v != w);
+}
+
+/// `as_any_mut` on its own (what `check_param(.., ctx.as_mut())` implementations
+/// use to update the per-call object).
+#[kani::proof]
+#[kani::unwind(3)]
+fn definition_context__as_any_mut_reaches_the_object() {
+    let v: u8 = kani::any();
+    let w: u8 = kani::any();
+    let mut ctx = FunctionDefinitionContext::new(v);
+    match ctx.as_any_mut().downcast_mut::<u8>() {
+        Some(x) => {
+            assert!(*x == v, "as_any_mut reaches the stored object");
+            *x = w;
+        }
+        None => {
+            assert!(false, "as_any_mut reaches the stored object");
+        }
+    }
+    assert!(ctx.downcast_ref::<u8>() == Some(&w), "the object written through as_any_mut is the one read back");
+    kani::cover!(v != w);
+    std::mem::forget(ctx);
 }
